@@ -175,6 +175,22 @@ func runScript(script []string, fl flags) *runResult {
 		case "cput", "cget", "cfm", "cacput", "cacget":
 			st.reply = w.execClient(line)
 			mutating = f[0] == "cput" || f[0] == "cacput"
+		case "bigget", "bigfront", "stallget":
+			// harness-only: judged by the oracle, not sent to the model
+			if f[0] == "stallget" {
+				pieces, err1 := strconv.Atoi(f[1])
+				k, err2 := strconv.Atoi(f[len(f)-1])
+				if len(f) != 3 || err1 != nil || err2 != nil || pieces < 1 || pieces > 16 || k < 0 || k > 3 {
+					res.err = fmt.Errorf("bad line %q", line)
+					return res
+				}
+				st.reply = w.execStall(pieces, k)
+			} else {
+				st.reply = w.execBig(line)
+			}
+			st.casAfter, st.acAfter = w.cas.copyMap(), w.ac.copyMap()
+			res.steps = append(res.steps, st)
+			continue
 		case "dump":
 			st.reply = dumpLine(w.cas, w.ac)
 		default:
